@@ -160,6 +160,30 @@ def check(ctx):
             monitored("functional.bs_european_price", fnl.bs_european_price, sS, tT, vV, case=case)
             monitored("functional.bs_lookback_price", fnl.bs_lookback_price, sS, sS.cummax(-1).values, tT, vV, 1.0, case=case)
             monitored("functional.bs_american_binary_price", fnl.bs_american_binary_price, sS, sS.cummax(-1).values, tT, vV, case=case)
+        # automatic Greeks of a user pricer under every parameterisation, on caller tensors (negative variances included: they are
+        # clamped, which must not happen in the caller's tensor); Greeks of the BS modules on caller tensors
+        import pfhedge.autogreek as ag
+        with torch.enable_grad():
+            xs_pos = torch.tensor([[float(v) for v in r] for r in mk["spot"]], dtype=dt)
+            var_t = (torch.ones_like(xs_pos) * 0.04)
+            var_t[0, 0] = -0.01
+            ttm_t = torch.ones_like(xs_pos) * 0.5
+            pr_spot = lambda spot, volatility, time_to_maturity: spot * spot * volatility + time_to_maturity * spot
+            pr_mon = lambda moneyness, variance, time_to_maturity: moneyness * (1.0 + variance) + time_to_maturity
+            pr_lm = lambda log_moneyness, volatility, time_to_maturity: log_moneyness.exp() * volatility + time_to_maturity
+            for gname in ("delta", "gamma", "vega", "theta"):
+                gf = getattr(ag, gname)
+                monitored(f"autogreek.{gname}[spot,variance]", gf, pr_spot, spot=xs_pos, variance=var_t, time_to_maturity=ttm_t, case=case)
+                monitored(f"autogreek.{gname}[moneyness,variance]", gf, pr_mon, moneyness=xs_pos, strike=2.0, variance=var_t, time_to_maturity=ttm_t, case=case)
+                monitored(f"autogreek.{gname}[log_moneyness,volatility]", gf, pr_lm, log_moneyness=xs_pos.log(), strike=2.0,
+                          volatility=var_t.abs().sqrt(), time_to_maturity=ttm_t, case=case)
+            from pfhedge.nn import BSEuropeanOption, BSLookbackOption, BSAmericanBinaryOption, BSEuropeanBinaryOption
+            lmx = xs_pos.log()
+            for mname, mod_, pd_ in (("BSEuropeanOption", BSEuropeanOption(strike=1.5), False), ("BSEuropeanBinaryOption", BSEuropeanBinaryOption(strike=1.5), False),
+                                     ("BSLookbackOption", BSLookbackOption(strike=1.5), True), ("BSAmericanBinaryOption", BSAmericanBinaryOption(strike=1.5), True)):
+                args_ = (lmx, lmx.cummax(-1).values, ttm_t, var_t.abs().sqrt()) if pd_ else (lmx, ttm_t, var_t.abs().sqrt())
+                for gname in ("price", "delta", "gamma", "vega", "theta"):
+                    monitored(f"{mname}.{gname}", getattr(mod_, gname), *args_, case=case)
         # simulation with caller-provided initial states / re-simulation leaves caller tensors alone
         init = (torch.tensor(1.5, dtype=dt),)
         monitored("BrownianStock.simulate(init_state tensor)", u.simulate if mk["primary"] == "BrownianStock" else I.BrownianStock(dtype=dt).simulate,
